@@ -444,6 +444,18 @@ def ecdsa_verify_p256(pub, digest_bytes, sig):
     return R is not None and R[0] % c["n"] == r
 
 
+def ecdsa_sign_p256(priv, digest_bytes, k):
+    """r || s with the given nonce k (any value in 1..n-1 gives a valid signature)"""
+    c = P256
+    R = _ec_mul(c, k, (c["gx"], c["gy"]))
+    r = R[0] % c["n"]
+    e = int.from_bytes(digest_bytes[:32], "big")
+    s_ = pow(k, -1, c["n"]) * (e + r * priv) % c["n"]
+    if r == 0 or s_ == 0:
+        return None
+    return r.to_bytes(32, "big") + s_.to_bytes(32, "big")
+
+
 def ecdh_p256(priv, pub):
     R = _ec_mul(P256, priv, pub)
     return R[0].to_bytes(32, "big")
